@@ -8,6 +8,10 @@ import TbbVerif.Proofs.C14.Func
 import TbbVerif.Proofs.C14.Caches
 import TbbVerif.Proofs.C14.Graph
 import TbbVerif.Proofs.C14.Pair
+import TbbVerif.Proofs.C14.InPut
+import TbbVerif.Proofs.C14.Wait
+import TbbVerif.Proofs.C14.Meta
+import TbbVerif.Proofs.C14.Cancel
 
 namespace TbbVerif.C14.Props
 open TbbVerif TbbVerif.C14
@@ -187,6 +191,288 @@ example : let p := ((PullPair.mach 100 102 1).run [.extPut 1, .activate, .putTas
       .putTask, .putTask, .bodyDone 101]).1
     (p.r.accepted, p.r.finished, p.s.delivered, p.s.succs, p.r.preds) = ([101, 100, 1], [101, 100, 1], [101, 100], [1], []) := by
   decide
+
+/-! ### the reservation protocol (reservable_predecessor_cache, limiter_node::forward_task, input_node put tasks)
+
+Everything below is about `Res.St.sys Res.genFlags` / `Res.ISt.sys Res.genIFlags`: the step functions instantiated
+with the structural facts regenerated from the current source text (`Generated/C14Res.lean`); `by decide` checks
+that these facts still have the shape the proofs need. -/
+
+open Res in
+/-- **One reservation, one owner.**  For every interleaving of any number of `limiter_node::forward_task`
+invocations (forward tasks, the decrementer, `register_predecessor`, re-spawns) with item arrivals, edge flips and the
+push path, at the granularity of the mutex-protected sections: `reserved_src` is set exactly while ONE attempt (the
+`holder`) is between the locked section of `try_reserve` that set it and its own release / consume / failed-reserve
+clean-up; a sender is reserved exactly while the holder has reserved it; no release or consume was ever performed by
+another attempt or on an unreserved sender (`stolen = false`), and a null `reserved_src` was never dereferenced. -/
+theorem reservation_single_owner (threshold : Nat) (ops : List Res.Op) :
+    let s := St.sys genFlags threshold ops
+    (∀ a, s.holder = some a ↔ (s.att a).pc.holdsSrc.isSome = true) ∧
+    (∀ a b, (s.att a).pc.holdsSrc.isSome = true → (s.att b).pc.holdsSrc.isSome = true → a = b) ∧
+    s.rsrc = s.hpc.holdsSrc ∧
+    (∀ p, (s.snd p).reserved = true ↔ ∃ v, s.hpc.holdsRes = some (p, v)) ∧
+    s.stolen = false ∧ s.crashed = false := by
+  intro s
+  have h : St.Inv s := St.inv_sys (by decide) threshold ops
+  refine ⟨h.hold, ?_, h.src, ?_, h.clean.1, h.clean.2⟩
+  · intro a b ha hb
+    have h1 := (h.hold a).mpr ha
+    have h2 := (h.hold b).mpr hb
+    rw [h1] at h2; injection h2
+  · intro p
+    exact ⟨h.res1 p, fun ⟨v, hv⟩ => (h.res2 p v hv).1⟩
+
+open Res in
+/-- **A forward attempt whose `try_reserve` fails touches nothing**: in every reachable state, an attempt that enters
+`try_reserve` while `reserved_src` is set goes to the failure section without changing the cache, the senders, the
+ghost logs or making any call-out; and its failure section (local `reserved == false`) changes counters only — in
+particular it neither releases nor consumes the other attempt's reservation. -/
+theorem reservation_failed_attempt_touches_nothing (threshold : Nat) (ops : List Res.Op) (a : Nat) (acc : Bool) :
+    let s := St.sys genFlags threshold ops
+    ((s.att a).pc = .entered → s.rsrc.isSome = true →
+      ((s.stepAtt genFlags a acc).att a).pc = .noRes ∧ St.sameRes s (s.stepAtt genFlags a acc)) ∧
+    ((s.att a).pc = .noRes →
+      ((s.stepAtt genFlags a acc).att a).pc = .done ∧ St.sameRes s (s.stepAtt genFlags a acc)) := by
+  intro s
+  have h : St.Inv s := St.inv_sys (by decide) threshold ops
+  exact ⟨fun h1 h2 => St.failed_entered (by decide) a acc h1 h2, fun h1 => St.failed_noRes (by decide) h a acc h1⟩
+
+open Res in
+/-- **A reserved item is consumed iff it was delivered; otherwise it is released and still available.**
+For every interleaving: the (sender, value) pairs the successors accepted are exactly the consumed ones plus the one
+of the attempt that is between its successful `try_put_task` and its final section (list equality, newest first);
+per sender, everything that ever arrived is what was consumed (in arrival order) followed by what is still in the
+sender; an in-flight value is the reserved front item of its sender; and when nobody holds `reserved_src`, nothing
+is in flight and no sender is reserved — every arrived item has then been delivered exactly once, in order, or is
+still available. -/
+theorem limiter_forward_exactly_once (threshold : Nat) (ops : List Res.Op) :
+    let s := St.sys genFlags threshold ops
+    s.delivered = s.inflight ++ s.consumed ∧
+    (∀ p, s.arrived p = ((s.consumed.filter (fun x => x.1 == p)).map (·.2)).reverse ++ (s.snd p).items) ∧
+    (∀ p v, (p, v) ∈ s.inflight → (s.snd p).reserved = true ∧ (s.snd p).items.head? = some v) ∧
+    (s.holder = none → s.inflight = [] ∧ (∀ p, (s.snd p).reserved = false) ∧
+      ∀ p, s.arrived p = ((s.delivered.filter (fun x => x.1 == p)).map (·.2)).reverse ++ (s.snd p).items) := by
+  intro s
+  have h : St.Inv s := St.inv_sys (by decide) threshold ops
+  refine ⟨h.deliv, h.arr, ?_, ?_⟩
+  · intro p v hm
+    unfold St.inflight at hm
+    cases hh : s.hpc with
+    | offered q w acc =>
+      cases acc with
+      | false => rw [hh] at hm; simp [Pc.infl] at hm
+      | true =>
+        rw [hh] at hm; simp [Pc.infl] at hm
+        obtain ⟨rfl, rfl⟩ := hm
+        exact h.res2 p v (by rw [hh]; rfl)
+    | _ => rw [hh] at hm; simp [Pc.infl] at hm
+  · intro hn
+    have hi : s.inflight = [] := by simp [St.inflight, St.hpc, hn, Pc.infl]
+    refine ⟨hi, St.unreserved_of_noholder h hn, ?_⟩
+    intro p
+    rw [h.deliv, hi]; exact h.arr p
+
+open Res in
+/-- **Delivered at most once**: if the items that arrive in a sender are pairwise distinct, the values the successors
+accepted from that sender are pairwise distinct. -/
+theorem limiter_forward_at_most_once (threshold : Nat) (ops : List Res.Op) (p : Nat) :
+    let s := St.sys genFlags threshold ops
+    (s.arrived p).Nodup → ((s.delivered.filter (fun x => x.1 == p)).map (·.2)).Nodup := by
+  intro s hnd
+  exact St.delivered_nodup (St.inv_sys (by decide) threshold ops) p hnd
+
+/-- two forward attempts race for item 100 of sender 0 (threshold 2): attempt 1 enters while attempt 0 holds the
+reservation, fails, and leaves it alone; attempt 0 delivers and consumes; 101 is still available -/
+def exResOps : List Res.Op :=
+  [.senderPut 0 100, .senderPut 0 101, .regPred 0, .step 0 true, .step 0 true, .step 0 true, .step 0 true,
+   .step 1 true, .step 1 true, .step 0 true, .step 1 true, .step 0 true]
+
+example : let s := Res.St.sys Res.genFlags 2 exResOps
+    (s.delivered, s.consumed, (s.snd 0).items) = ([(0, 100)], [(0, 100)], [101]) := by decide
+example : let s := Res.St.sys Res.genFlags 2 exResOps
+    ((s.snd 0).reserved, s.rsrc, s.count, s.tries) = (false, none, 1, 0) := by decide
+example : let s := Res.St.sys Res.genFlags 2 exResOps
+    ((s.att 0).pc, (s.att 1).pc) = (.done, .done) := by decide
+
+/-- the theorems are sensitive to the guard: with an unguarded `try_release` on the failure path (and a null-tolerant
+cache) the same schedule lets attempt 1 release attempt 0's reservation; 100 is delivered but never consumed -/
+def seededFlags : Res.Flags :=
+  { Res.genFlags with limFailGuarded := false, limSetsReserved := false, releaseNullTolerant := true, consumeNullTolerant := true }
+
+example : let s := Res.St.sys seededFlags 2 exResOps
+    (s.stolen, s.delivered, s.consumed, (s.snd 0).items) = (true, [(0, 100)], [], [100, 101]) := by decide
+
+open Res in
+/-- **input_node: one reservation, the body once per item, consumed iff delivered.**  For every interleaving of any
+number of put tasks (`apply_body_bypass`) with an external successor that pulls (`try_get`) or reserves / releases /
+consumes: `my_reserved` is held by exactly one party; the body produced the ids `first, first+1, …` each exactly once
+(it is never invoked while an item is cached or reserved); every produced id is the cached item or was taken from the
+cache exactly once (list equality); what the successors accepted from put tasks is exactly what put tasks consumed
+plus the one in flight — so it has no duplicates; nobody released or consumed a reservation that is not theirs. -/
+theorem input_node_reserve_apply_once (first stop : Nat) (ops : List Res.IOp) :
+    let s := ISt.sys genIFlags first stop ops
+    (∀ a, s.holder = some (.task a) ↔ (s.task a).val.isSome = true) ∧
+    s.reserved = s.holder.isSome ∧ (s.reserved = true → s.hasItem = true) ∧
+    s.gen.reverse = List.range' first (s.next - first) ∧
+    s.gen = (if s.hasItem then [s.item] else []) ++ s.taken.map (·.2) ∧
+    s.delivered = s.inflight ++ (s.taken.filter (·.1)).map (·.2) ∧
+    s.delivered.Nodup ∧ s.stolen = false := by
+  intro s
+  have h : ISt.Inv s := ISt.inv_sys (by decide) first stop ops
+  have hf : s.first = first := by
+    have : ∀ (ops : List Res.IOp) (t : ISt), (ops.foldl (ISt.step genIFlags) t).first = t.first := by
+      intro ops
+      induction ops with
+      | nil => intro t; rfl
+      | cons o os ih =>
+        intro t
+        rw [List.foldl_cons, ih]
+        cases o <;> simp only [ISt.step, ISt.stepTask, ISt.release, ISt.consume, ISt.respawn, ISt.setTask] <;> (repeat' split) <;> rfl
+    exact this ops _
+  refine ⟨h.hold, h.res, h.item, ?_, h.gen2, h.deliv, ISt.delivered_nodup h, h.clean⟩
+  rw [← hf]; exact h.gen1
+
+open Res in
+/-- a put task that finds the node reserved returns at once: no body call, no call-out, nothing released -/
+theorem input_node_failed_task_touches_nothing (first stop : Nat) (ops : List Res.IOp) (a : Nat) (acc : Bool) :
+    let s := ISt.sys genIFlags first stop ops
+    s.task a = .idle → s.reserved = true → s.stepTask genIFlags a acc = s.setTask a .done :=
+  fun h1 h2 => ISt.failed_task (by decide) a acc h1 h2
+
+/-- put task 0 is inside `try_put_task` (item 5 reserved) while put task 1 runs: task 1 returns at once; the
+successors reject 5, it is released; the external successor pulls it; the next put task generates 6 -/
+example : let s := Res.ISt.sys Res.genIFlags 5 7 [.activate, .step 0 true, .step 1 true, .step 0 false, .step 0 true, .xGet,
+      .step 2 true, .step 2 true, .step 2 true]
+    (s.gen, s.delivered, s.taken, s.bodyCalls, s.reserved, s.hasItem) = ([6, 5], [6], [(true, 6), (false, 5)], 2, false, false) := by
+  decide
+
+/-! ### what wait_for_all waits for: the wait-context vertex, thread reference vertices, gateways -/
+
+open Wait in
+/-- **The wait tree counts exactly.**  For every interleaving of the ATOMIC ACCESSES of any number of threads —
+`reserve_wait` / `release_wait` (gateways, users), `graph_task`s constructed outside the arena (on the graph's vertex)
+and inside it (two accesses: the thread's `reference_vertex`, then — if it was 0 — the graph's vertex), their
+`finalize` (again two accesses) — the graph's reference count equals: open `reserve_wait`s + live foreign-created
+tasks + the number of thread vertices that currently hold their reference on the root + `parent->release()` calls
+still to be made; a thread vertex's counter is the number of live tasks that reference it. -/
+theorem wait_tree_counts (ops : List Wait.WOp) :
+    let s := WT.sys genWFlags ops
+    s.root = ((s.resv + s.tasksRoot + s.liveSet.length + s.pendRel : Nat) : Int) ∧
+    (∀ u, s.child u = s.tasksChild u) ∧
+    (∀ u, u ∈ s.liveSet ↔ (0 < s.child u ∧ s.pr u = false)) ∧ s.liveSet.Nodup := by
+  intro s
+  have h : WT.Inv s := WT.inv_sys (by decide) ops
+  exact ⟨h.root, h.cnt, h.live, h.nd⟩
+
+open Wait in
+/-- **wait_for_all covers the gateway.**  `wait_for_all` returns only when it reads reference count 0; in every
+reachable state with count 0 there is no open `reserve_wait` (so it cannot return between a gateway's `reserve_wait`
+and `release_wait`), no live task created by a foreign thread (so it cannot return while a successor task spawned by
+`gateway.try_put` is pending or running) and no fully constructed task of an arena thread; conversely an open
+`reserve_wait` or a foreign-created task keeps the count positive.  The ghost flag `early` (a `wait_for_all` test that
+let the waiter go while something completed was outstanding) is never set. -/
+theorem wait_for_all_covers_gateway (ops : List Wait.WOp) :
+    let s := WT.sys genWFlags ops
+    (s.root = 0 → s.resv = 0 ∧ s.tasksRoot = 0 ∧ s.pendRel = 0 ∧ ∀ u, 0 < s.tasksChild u → s.pr u = true) ∧
+    (0 < s.resv → 0 < s.root) ∧ (0 < s.tasksRoot → 0 < s.root) ∧
+    (∀ u, 0 < s.tasksChild u → s.pr u = false → 0 < s.root) ∧
+    0 ≤ s.root ∧ s.early = false := by
+  intro s
+  have h : WT.Inv s := WT.inv_sys (by decide) ops
+  have hr := h.root
+  have key : ∀ u, 0 < s.tasksChild u → s.pr u = false → 0 < s.liveSet.length := by
+    intro u h1 h2
+    exact List.length_pos_of_mem ((h.live u).mpr ⟨by rw [h.cnt u]; exact h1, h2⟩)
+  refine ⟨?_, ?_, ?_, ?_, ?_, h.early⟩
+  · intro h0
+    rw [h0] at hr
+    have h1 : s.resv + s.tasksRoot + s.liveSet.length + s.pendRel = 0 := by exact_mod_cast hr.symm
+    refine ⟨by omega, by omega, by omega, ?_⟩
+    intro u hu
+    cases hp : s.pr u with
+    | true => rfl
+    | false => have := key u hu hp; omega
+  · intro h1; rw [hr]; exact_mod_cast (by omega : 0 < s.resv + s.tasksRoot + s.liveSet.length + s.pendRel)
+  · intro h1; rw [hr]; exact_mod_cast (by omega : 0 < s.resv + s.tasksRoot + s.liveSet.length + s.pendRel)
+  · intro u h1 h2
+    have := key u h1 h2
+    rw [hr]; exact_mod_cast (by omega : 0 < s.resv + s.tasksRoot + s.liveSet.length + s.pendRel)
+  · rw [hr]; exact_mod_cast Nat.zero_le _
+
+/-- an async body running in a task of thread 0 reserves the gateway, the task finalizes (thread 1 does the
+`parent->release()` late), the foreign thread puts (a task on the root) and releases the gateway, the task runs:
+the count is positive throughout and 0 at the end -/
+example : (([.mkArena 0, .parentReserve 0, .reserveWait, .finChild 0, .waitTest, .parentRelease, .waitTest, .mkForeign, .releaseWait,
+      .waitTest, .finRoot, .waitTest] : List Wait.WOp).foldl
+        (fun (acc : Wait.WT × List Int) o => let s := acc.1.step Wait.genWFlags o; (s, acc.2 ++ [s.root])) ({}, [])).2 =
+    [0, 1, 2, 2, 2, 1, 1, 2, 1, 1, 0, 0] := by decide
+
+
+/-! ### try_put_and_wait: the put's wait-context vertex travels with the message -/
+
+open Meta in
+/-- **try_put_and_wait returns only after every descendant was processed.**  `try_put_and_wait` returns when its own
+vertex reads reference count 0.  For every interleaving of holder creations / destructions and forwards along the
+function-node (task, queue → task), buffer / queue, join and limiter paths — each forward being the two steps "offer
+to the successor (its holder reserves)" and "destroy the source (release)" in the order the code has, with every other
+thread (the waiter's test included) free to run in between — : whenever the count of call `w` is 0, no live holder
+(pending or running task, buffer / queue / port slot) carries a message that derives from `w` along metainfo-carrying
+hops, and no such message is in transit between a destroyed source and its not yet created successor; the ghost flag
+`early` (a test that let the waiter go over an unprocessed descendant) is never set. -/
+theorem try_put_and_wait_returns_after_descendants (ops : List Meta.MOp) (w : Nat) :
+    let s := MS.sys genMFlags ops
+    (s.cnt w = 0 → (∀ h ∈ s.hs, h.tracked = true → w ∉ h.org) ∧ (∀ p ∈ s.pend, p.transit = none)) ∧
+    s.early = false := by
+  intro s
+  have h : MS.Inv s := MS.inv_sys (by decide) ops
+  refine ⟨fun h0 => ⟨?_, h.pnd⟩, h.early⟩
+  intro x hx ht hw
+  have h1 := h.trk x hx ht w hw
+  have h2 := MS.count_le_owned hx w
+  have h3 := List.count_pos_iff.mpr h1
+  have h4 := h.cnt w
+  rw [h0] at h4
+  have : MS.owned s.hs w = 0 := by exact_mod_cast h4.symm
+  omega
+
+open Meta in
+/-- **… and it does not wait for unrelated messages.**  The count of call `w` is exactly the number of references
+owned by live holders, and a holder owns a reference on `w` only if its message derives from `w`; so as soon as no
+live holder derives from `w` the count is 0 and the waiter is released, whatever else is in the graph. -/
+theorem try_put_and_wait_ignores_unrelated (ops : List Meta.MOp) (w : Nat) :
+    let s := MS.sys genMFlags ops
+    s.cnt w = (MS.owned s.hs w : Int) ∧ (∀ h ∈ s.hs, w ∈ h.ws → w ∈ h.org) ∧
+    ((∀ h ∈ s.hs, w ∉ h.org) → s.cnt w = 0) := by
+  intro s
+  have h : MS.Inv s := MS.inv_sys (by decide) ops
+  refine ⟨h.cnt w, fun x hx hw => h.own x hx w hw, ?_⟩
+  intro hno
+  rw [h.cnt w]
+  have : MS.owned s.hs w = 0 := by
+    have hz : ∀ x ∈ s.hs, x.ws.count w = 0 := by
+      intro x hx
+      apply List.count_eq_zero_of_not_mem
+      intro hm; exact hno x hx (h.own x hx w hm)
+    generalize s.hs = l at hz
+    induction l with
+    | nil => rfl
+    | cons y ys ih =>
+      rw [MS.owned_cons, hz y (List.mem_cons_self ..), ih (fun x hx => hz x (List.mem_cons_of_mem _ hx))]
+  exact_mod_cast this
+
+/-- call 7 enters a queueing function node (a task), an unrelated plain message is queued behind it; the task forwards
+to a queue_node slot, finalizes; the slot is forwarded to a sink task which finalizes: count 1,1,2,1,2,1,0 -/
+example : (([.tpw 7 .task, .put .slot, .fwdBegin .task [0] true .slot true, .fwdEnd 0, .fwdBegin .buffer [2] true .task true, .fwdEnd 0,
+      .fin 3] : List Meta.MOp).foldl
+        (fun (acc : Meta.MS × List Int) o => let s := acc.1.step Meta.genMFlags o; (s, acc.2 ++ [s.cnt 7])) ({}, [])).2 =
+    [1, 1, 2, 1, 2, 1, 0] := by decide
+
+/-- sensitivity: if `perform_queued_requests` popped the queue before creating the task, the count would drop to 0
+while the message is in nobody's hands, and a waiter testing there would return early -/
+example : ((Meta.MS.sys { Meta.genMFlags with pqrCopyBeforePop := false }
+      [.tpw 7 .slot, .fwdBegin .pqr [0] true .task true, .waitTest 7]).early, (Meta.MS.sys Meta.genMFlags
+      [.tpw 7 .slot, .fwdBegin .pqr [0] true .task true, .waitTest 7]).early) = (true, false) := by decide
+
 
 /-! ### continue nodes -/
 
@@ -482,5 +768,39 @@ def exRun : Net :=
 example : exRun.live = [] ∧ exRun.dtasks = [] ∧ exRun.zombies = [] ∧ exRun.vertex = 0 ∧
     (exRun.node 2).finished = [7, 8] ∧ exRun.ext 0 = [8, 7] ∧ exRun.ext 1 = [] ∧ exRun.ext 2 = [] := by
   decide
+
+/-- **After cancellation or an exception only bodies that were already in flight finish.**  "No further body starts"
+made precise: let `c` be `graph::cancel()` or a throwing body.  For every continuation of the run (any interleaving
+of puts, task starts, completions, deliveries, more exceptions …), per node and message, the number of completed
+body invocations never exceeds the number completed before `c` plus the number that had been taken by a dispatcher
+and entered (`started`) when `c` happened; with `no_body_after_cancel` (the start counter is frozen) this says that
+once those in-flight bodies have returned — in particular once `wait_for_all` has returned / rethrown — no body runs
+until the graph is used again after `reset()`. -/
+theorem after_cancel_only_in_flight_finish (node : Nat → FuncInput) (succs : Nat → List Nat) (before after : List NOp)
+    (c : NOp) (hc : c = .cancel ∨ ∃ n m, c = .throw n m ∧ (n, m) ∈ ((Net.mach node succs).run before).1.started) (n m : Nat) :
+    let s0 := ((Net.mach node succs).run before).1
+    let s1 := ((Net.mach node succs).run (before ++ c :: after)).1
+    (s1.node n).finished.count m + s1.started.count (n, m) ≤ (s0.node n).finished.count m + s0.started.count (n, m) := by
+  simp only [Mach.run] at hc ⊢
+  rw [Mach.runFrom_append]
+  simp only [Mach.runFrom]
+  generalize ((Net.mach node succs).runFrom (Net.mach node succs).init before).1 = s at *
+  have h1 : (s.step c).1.cancelled = true ∧ Net.doneOrFlying (s.step c).1 n m ≤ Net.doneOrFlying s n m := by
+    rcases hc with hc | ⟨n', m', hc, hs⟩
+    · subst hc; exact ⟨by simp [Net.step], Nat.le_refl _⟩
+    · subst hc
+      have hs' : (n', m') ∈ s.started := hs
+      refine ⟨by simp [Net.step, hs'], ?_⟩
+      unfold Net.doneOrFlying
+      simp only [Net.step, hs', if_true]
+      have : (s.started.erase (n', m')).count (n, m) ≤ s.started.count (n, m) := by
+        rw [Net.count_erase_pair]; omega
+      simp; omega
+  exact Nat.le_trans (Net.cancelled_flying_runFrom node succs h1.1 after n m) h1.2
+
+/-- not vacuous: two bodies in flight when node 0's other body throws; both may finish, the queued message never runs -/
+example : let s := ((Net.mach exNode exChain).run [.put 1 5, .put 1 6, .put 1 7, .start 1 5, .start 1 6, .start 1 7, .throw 1 7,
+      .finish 1 5, .put 1 8, .start 1 8, .finish 1 6, .deliver, .deliver, .start 2 5]).1
+    ((s.node 1).finished, s.started, s.bodyStarts, s.cancelled) = ([6, 5], [], 3, true) := by decide
 
 end TbbVerif.C14.Props
